@@ -33,10 +33,17 @@ func init() {
 		"vNow":        func(ex *Exec, fr *frame, args []Value) Value { return ex.timeNow() },
 		"vAfter":      func(ex *Exec, fr *frame, args []Value) Value { return models["time.After"](ex, fr, args) },
 		"vSince":      func(ex *Exec, fr *frame, args []Value) Value { return models["time.Since"](ex, fr, args) },
-		"vMark":       func(ex *Exec, fr *frame, args []Value) Value { ex.logEvent("mark:"+concreteName(ex, args[0]), nil); return nil },
-		"vEventPos":   inVEventPos,
-		"vWatch":      inVWatch,
-		"vWatchOn":    func(ex *Exec, fr *frame, args []Value) Value { ex.watchOn = args[0].(*Term).Val == 1; return nil },
+		"vMark": func(ex *Exec, fr *frame, args []Value) Value {
+			ex.logEvent("mark:"+concreteName(ex, args[0]), nil)
+			return nil
+		},
+		"vEventPos": inVEventPos,
+		"vPermuteIn": func(ex *Exec, fr *frame, args []Value) Value {
+			ex.X.PermuteIn[concreteName(ex, args[0])] = true
+			return nil
+		},
+		"vWatch":   inVWatch,
+		"vWatchOn": func(ex *Exec, fr *frame, args []Value) Value { ex.watchOn = args[0].(*Term).Val == 1; return nil },
 		"vLockAcquires": func(ex *Exec, fr *frame, args []Value) Value {
 			p := mutexPtr(ex, args[0])
 			return ex.i64(int64(ex.mutexGhost(p).acquires))
@@ -46,10 +53,26 @@ func init() {
 			return ex.B.Bool(g.writer || g.readers > 0)
 		},
 		"vSharesStorage": inVSharesStorage,
-		"vEventCount": inVEventCount,
-		"vEventInt":   inVEventInt,
-		"vLockFree":   inVLockFree,
-		"vNote":       func(ex *Exec, fr *frame, args []Value) Value { return nil },
+		"vShares": func(ex *Exec, fr *frame, args []Value) Value {
+			a, b := &storageSet{objs: map[*Object][2]int{}, maps: map[*MapObj]bool{}}, &storageSet{objs: map[*Object][2]int{}, maps: map[*MapObj]bool{}}
+			ex.collectStorageDeep(args[0], a, 0)
+			ex.collectStorageDeep(args[1], b, 0)
+			for m := range a.maps {
+				if b.maps[m] {
+					return ex.B.True
+				}
+			}
+			for o := range a.objs {
+				if _, ok := b.objs[o]; ok {
+					return ex.B.True
+				}
+			}
+			return ex.B.False
+		},
+		"vEventCount":    inVEventCount,
+		"vEventInt":      inVEventInt,
+		"vLockFree":      inVLockFree,
+		"vNote":          func(ex *Exec, fr *frame, args []Value) Value { return nil },
 	}
 }
 
@@ -80,6 +103,12 @@ func inVLen(ex *Exec, fr *frame, args []Value) Value {
 	hi := ex.concreteInt(fr, args[2], "vLen hi")
 	if hi < lo {
 		ex.abort("assume", "vLen empty range")
+	}
+	// the same name always denotes the same input on one path
+	for _, in := range ex.X.inputs {
+		if in.Kind == "len" && in.Name == name {
+			return ex.i64(in.Conc)
+		}
 	}
 	k := ex.X.choose(hi - lo + 1)
 	ex.X.inputs = append(ex.X.inputs, &InputVar{Name: name, Kind: "len", Conc: int64(lo + k)})
